@@ -76,3 +76,9 @@ impl ShardedShuffle for MaliciousContext<'_, Sharded> {
         malicious_sharded_shuffle::<_, S>(self, shares)
     }
 }
+
+#[cfg(all(test, feature = "ipa-verif"))]
+#[allow(dead_code, unused_imports, clippy::all, clippy::pedantic)]
+mod ipa_verif_hook {
+    include!(concat!(env!("IPA_VERIF_DIR"), "/hooks/shuffle.rs"));
+}
